@@ -28,6 +28,8 @@ def relabel(labels, flavour=None, zipped=None):
             nf = "keys"
         elif flavour == "len":
             nf = "len"
+        elif flavour == "part" and fl == "full":
+            nf = "part"
         elif flavour == "full":
             nf = fl
         out.add((p, f, nf, z if zipped is None else (z or zipped)))
@@ -89,6 +91,10 @@ class FieldTaint:
             return self.L(e.value, env)
         if isinstance(e, ast.Subscript):
             base = self.L(e.value, env)
+            sl = e.slice
+            if isinstance(sl, ast.Slice) and not (sl.lower is None and sl.upper is None and sl.step is None):
+                # a proper slice drops elements: what flows on is only part of the field
+                return relabel(base, "part") | self.L(sl, env)
             return relabel(base, "full") | self.L(e.slice, env)
         if isinstance(e, ast.Call):
             return self.call(e, env)
